@@ -376,6 +376,19 @@ impl Bench {
         }
     }
 
+    /// Like [`install_tals`][Self::install_tals] for the TALs that are
+    /// installed during run `run` (`TalSpec.runs`).
+    pub fn install_tals_for_run(&self, builder: &Builder, world: &World, run: usize) {
+        let _ = fs::remove_dir_all(&self.tals);
+        fs::create_dir_all(&self.tals).expect("create tal dir");
+        for tal in world.tals_in(run) {
+            fs::write(
+                self.tals.join(format!("{}.tal", tal.name)),
+                builder.tal_file(tal)
+            ).expect("write TAL");
+        }
+    }
+
     /// Publishes a server tree (replacing the previous one).
     pub fn publish(&self, tree: &ServerTree, ctl: &[RsyncCtl]) -> Vec<String> {
         crate::rsync::publish(&self.server, tree, ctl)
